@@ -26,6 +26,13 @@ Example ex_aug_targets :
     = Some (Some [FN 2; SN 0], [FN 2; SN 0]).
 Proof. vm_compute. split; reflexivity. Qed.
 
+(* an ordinary node labelled ('F', 3.0) == ('F', 3) occupies that name: the next F-node avoids it *)
+Example ex_twin :
+  let w := fst (step good (run good ex_hist) (On 0 (LAddTwin 100 (FN 3) [1]))) in
+  option_map (fun g => (occ g, anodes g)) (nth_error (objs (fst (step good w (On 0 (LAddF [0] []))))) 0)
+    = Some ([FN 3], [FN 1; FN 2; FN 4]).
+Proof. vm_compute. reflexivity. Qed.
+
 (* created_stable: a registered entry, and an operation that is not its removal *)
 Example ex_stable_hyp :
   exists g, nth_error (objs (run good ex_hist)) 1 = Some g /\ lookup 2 (gF g) = Some [2] /\ keeps (LRemove (FN 1)) (FN 2).
